@@ -78,12 +78,14 @@ class FnBlock:
         self.trait_impl = False
 
 
-def preprocess(path, flavour, seen=None):
+def preprocess(path, flavour, subst=None):
     """Resolve //@include and //@if.  Returns list of (line, origin)."""
     base = os.path.dirname(path)
     out = []
     stack = []  # active flags
     for ln, line in enumerate(open(path).read().split("\n"), 1):
+        for k_, v_ in (subst or {}).items():
+            line = line.replace("{" + k_ + "}", v_)
         s = line.strip()
         if s.startswith("//@if "):
             fl = [x.strip() for x in s[6:].split(",")]
@@ -100,12 +102,9 @@ def preprocess(path, flavour, seen=None):
         if s.startswith("//@include "):
             parts = s[11:].split()
             inc = os.path.join(os.path.dirname(os.path.abspath(path)), parts[0])
-            subst = dict(p.split("=", 1) for p in parts[1:])
-            sub = preprocess(inc, flavour)
-            for l2, o2 in sub:
-                for k, v in subst.items():
-                    l2 = l2.replace("{" + k + "}", v)
-                out.append((l2, o2))
+            sub2 = dict(subst or {})
+            sub2.update(dict(p.split("=", 1) for p in parts[1:]))
+            out.extend(preprocess(inc, flavour, sub2))
             continue
         out.append((line, "%s:%d" % (os.path.relpath(path, "/verif"), ln)))
     if stack:
@@ -157,10 +156,10 @@ def parse_template(lines, flavour):
             cur.trait_impl = True
             cur.novac = True
         elif s.startswith("//@rewrite") or s.startswith("//@sigrewrite"):
-            m = re.match(r"//@(sig)?rewrite(\??)\s+`(.*?)`\s*=>\s*`(.*)`\s*$", s)
+            m = re.match(r"//@(sig)?rewrite(\??|-all)\s+`(.*?)`\s*=>\s*`(.*)`\s*$", s)
             if not m:
                 raise ExtractError("bad rewrite at %s" % origin)
-            cur.rewrites.append(("sig" if m.group(1) else "all", m.group(3), m.group(4), bool(m.group(2))))
+            cur.rewrites.append(("sig" if m.group(1) else "all", m.group(3), m.group(4), {"": False, "?": True, "-all": "all"}[m.group(2)]))
         elif s == "//@spec":
             sink = cur.spec
         elif s.startswith("//@loop "):
@@ -637,7 +636,10 @@ def generate(template_path, flavour, repo="/repo", vacuity=False, rules=None):
                 sig = rx.sub(lambda _m: to, sig)
             else:
                 n = len(rx.findall(sig)) + len(rx.findall(body))
-                if n != 1 and not (optional and n == 0):
+                if optional == "all":
+                    if n < 1:
+                        raise ExtractError("%s: rewrite-all `%s` matched 0 times" % (b.id, frm))
+                elif n != 1 and not (optional and n == 0):
                     raise ExtractError("%s: rewrite `%s` matched %d times" % (b.id, frm, n))
                 sig = rx.sub(lambda _m: to, sig)
                 body = rx.sub(lambda _m: to, body)
